@@ -151,6 +151,15 @@ pub struct CheckDef {
     pub assumptions: &'static [&'static str],
 }
 
+thread_local! {
+    static RUN_SEED: std::cell::Cell<u64> = const { std::cell::Cell::new(0) };
+}
+
+/// Seed of the run executing on this thread (for harness-side derivations).
+pub fn run_seed() -> u64 {
+    RUN_SEED.with(|s| s.get())
+}
+
 /// Largest single allocation a simulated run may request (bounded-memory clauses).
 pub const ALLOC_CAP_BYTES: usize = 256 << 20;
 
@@ -165,6 +174,7 @@ pub fn run_isolated<T: Send + 'static>(
         .stack_size(256 << 20)
         .spawn(move || {
             interpose::seed_thread(seed);
+            RUN_SEED.with(|s| s.set(seed));
             trace::reset(false);
             alloc::set_thread_cap(ALLOC_CAP_BYTES);
             let r = std::panic::catch_unwind(std::panic::AssertUnwindSafe(f));
